@@ -12,7 +12,7 @@ func init() {
 		Assumptions: []string{e2assume, "failing rules fail through div-by-zero, type errors, missing names or a panicking injected function"},
 		MinCounters: map[string]int64{"events": 1000}})
 	fw.Reg(&fw.Spec{ID: "C05", Level: "exploration", Quick: 1000, Thorough: 12000,
-		Rule: "generated rule sets (2-10 rules, ties frequent) through the mix, inverse-mix and six N-M methods (engine and pool mirrors), every valid N/M split reachable, random failing subsets, both error-policy values, GOMAXPROCS in {1,2,4,16}; in every call one earlier-stage rule is a laggard that holds in its end observer until a forbidden later-stage start is logged or 0.3-2.5 ms pass; distinct by (method, split, flags, shape, observed trace)",
+		Rule: "generated rule sets (1-10 rules, ties frequent) through the mix, inverse-mix and six N-M methods (engine and pool mirrors), every valid N/M split reachable, random failing subsets, both error-policy values, GOMAXPROCS in {1,2,4,16}; in every call one earlier-stage rule is a laggard that holds in its end observer until a forbidden later-stage start is logged or 0.3-2.5 ms pass; distinct by (method, split, flags, shape, observed trace)",
 		Assumptions: []string{e2assume, "holds only provoke; they never decide"},
 		MinCounters: map[string]int64{"events": 1000, "holds_entered": 100}})
 	fw.Reg(&fw.Spec{ID: "C11", Level: "exploration", Quick: 1000, Thorough: 12000,
